@@ -557,7 +557,7 @@ snarf_rrule(const char *s, size_t z)
 					}
 					break;
 				case BY_HOUR:
-					if (LIKELY(tmu <= 24U)) {
+					if (LIKELY(tmu < 24U)) {
 						rr.H = ass_bui31(rr.H, tmu);
 					}
 					break;
@@ -567,7 +567,7 @@ snarf_rrule(const char *s, size_t z)
 					}
 					break;
 				case BY_SEC:
-					if (LIKELY(tmu <= 60U)) {
+					if (LIKELY(tmu < 60U)) {
 						rr.S = ass_bui63(rr.S, tmu);
 					}
 					break;
